@@ -180,9 +180,9 @@ def shrink(ops, arch, flags, k2, drv, workdir, pred):
 
 def histories(rng, tier):
     hs = []
-    nj = 6 if tier == "quick" else 60
+    nj = 8 if tier == "quick" else 80
     for i in range(nj):
-        style = ["mixed", "full", "drain"][i % 3]
+        style = ["mixed", "full", "edge", "drain"][i % 4]
         pre = ringgen.rotate_prefix(rng, rng.below(256)) if tier != "quick" or i % 2 else []
         hs.append(("job/" + style, pre + ringgen.job_history(rng, 300 if tier == "quick" else 1500, style)))
     nb = 8 if tier == "quick" else 64
